@@ -34,7 +34,7 @@ Keep_graph_q(x) == (x.srcB = "packed" => x.spell = "exact" /\ ~x.sub /\ x.reqFor
 Keep_graph_t(x) == (x.srcB = "packed" => ~x.sub) /\ (x.sub => x.reqForm = "name" /\ x.spell = "exact") /\ (x.reqForm = "path" => x.spell = "exact")
 
 \* sources slice: two source directories, the first / second holding a good / broken / no copy of AA-MIB
-Dom_sources == D({"none"}, {<<"AA-MIB">>, <<"AA-MIB", "BB-MIB">>, <<"afile", "AA-MIB">>, <<"afile">>, <<"Aa-Mib">>}, Src3, Src3, Src3, BB, FF, {"AB", "BA"}, {"exact"},
+Dom_sources == D({"none"}, {<<"AA-MIB">>, <<"AA-MIB", "BB-MIB">>, <<"afile", "AA-MIB">>, <<"afile">>, <<"Aa-Mib">>}, Src3 \cup {"cut"}, Src3, Src3, BB, FF, {"AB", "BA"}, {"exact"},
                  {"absent", "fresh"}, {"absent"}, {"dir"}, {"name"}, FF, BB, FF, TT, BB, FF, BB, FF, FF, {"no"}, FF, FF)
 
 \* liveness slice (small): cycle of imports by variant names, alias, every source state
